@@ -3,7 +3,7 @@
    Print Assumptions.  Statements are over the executable model of coq/C19/Model.v, whose
    constants are regenerated from /repo into Gen.v on every run. *)
 From Coq Require Import Permutation.
-From C19 Require Import Model Proofs ProofsMachine ProofsHeap.
+From C19 Require Import Model Proofs ProofsMachine ProofsHeap ProofsSpans.
 Local Open Scope Z_scope.
 
 (* every small request is served by a class whose blocks are at least as large *)
@@ -138,3 +138,22 @@ Theorem C19_allocate_fits : forall psh h size e_span e_count live h' s off us,
    end).
 Proof. exact heap_allocate_fits. Qed.
 Print Assumptions C19_allocate_fits.
+
+(* ---- span layer (ProofsSpans.v: regions = OS mappings with a master span, span objects in use /
+   cached / reserved, carving from the reserve, caches with reuse of a larger span for a smaller
+   request, unmapping through the master's remaining_spans, finalization) ----
+   over ANY history of these operations from the empty allocator: the spans never overlap, each lies
+   inside a region that is still mapped, and the region still counts at least that span in
+   remaining_spans - so blocks of different spans stay disjoint across cache reuse *)
+Theorem C19_spans_disjoint_across_reuse : forall mc ops st, srun mc sempty ops = Some st ->
+  pairwise obj_disjoint (objs st) /\
+  (forall o, In o (objs st) -> exists g, In g (regions st) /\ inside o g /\ so_count o <= rg_remaining g).
+Proof. exact spans_disjoint_across_reuse. Qed.
+Print Assumptions C19_spans_disjoint_across_reuse.
+
+(* ... and finalization after ANY such history succeeds and leaves no mapped region and no span:
+   every mapping is returned to the OS (map/unmap balance zero) *)
+Theorem C19_finalize_unmaps_everything : forall mc ops st, srun mc sempty ops = Some st ->
+  exists st', op_finalize st = Some st' /\ regions st' = [] /\ objs st' = [].
+Proof. exact finalize_unmaps_everything. Qed.
+Print Assumptions C19_finalize_unmaps_everything.
